@@ -20,6 +20,9 @@ CONFIGS: list[tuple[F, F, bool]] = [
     (F(25), F(50), True),
     (F(25, 2), F(100), True),
     (F(10), F(7), False),
+    # a direction that takes no time (a valid configuration: e.g. a relay that only ever reports the end positions)
+    (F(25), F(0), True),
+    (F(0), F(25), True),
 ]
 POSITIONS = [0, 30, 50, 100]
 
@@ -41,7 +44,7 @@ def ops() -> list[tuple[Any, ...]]:
 
 
 def advances(cfg: tuple[F, F, bool]) -> list[F]:
-    down = cfg[0]
+    down = cfg[0] or cfg[1]
     return [F(0), EPS, F(1), down / 4, down / 2, down, 2 * max(cfg[0], cfg[1])]
 
 
@@ -291,6 +294,12 @@ def cover_worker(k: int, n: int, depth: int) -> Part:
     return c40_cover.worker(k, n, depth)
 
 
+def cover_arrival_worker() -> Part:
+    from .. import cover40 as c40_cover
+
+    return c40_cover.arrival_worker()
+
+
 def run(ctx: Ctx) -> None:
     depth = 4 if ctx.thorough else 3
     full_depth = 2
@@ -298,7 +307,8 @@ def run(ctx: Ctx) -> None:
         f"real TravelCalculator with time.time replaced by an explorer-owned clock: events = (clock advance in {{0, 2^-20 s, 1 s, T/4, T/2, T, 2T}}) x (command in {ops()}); ALL event histories of length "
         f"<= {depth} for {len(CONFIGS)} travel-time configurations (3 dyadic ones compared exactly, 1 with 1e-6 tolerance), merged by exact calculator state (fields + time since the last known position) beyond depth "
         f"{full_depth}; every query method is called before and after every command at that clock reading. Oracle = rational reference stepped in lock-step: never raises, unknown or an integer between last known "
-        "position and target, within <1 of the linear travel position, equal to the target once the travel time has elapsed, never moving away from the target, and the boolean queries agree with the estimate."
+        "position and target, within <1 of the linear travel position, equal to the target once the travel time has elapsed, never moving away from the target, and the boolean queries agree with the estimate. "
+        "The same through the real Cover device (command and bus events, all sequences to depth 2/3), plus arrival times for every Cover option set (invert_updown / invert_position x symmetric and asymmetric travel times) x start position x command."
     )
     ctx.bounds = {"depth": depth, "configs": len(CONFIGS), "events_per_state": len(ops()) * 7}
     units = []
@@ -311,13 +321,14 @@ def run(ctx: Ctx) -> None:
         from .. import cover40 as c40_cover  # noqa: F401
 
         ctx.pmap(cover_worker, [(k, 32, 3 if ctx.thorough else 2) for k in range(32)])
+        ctx.pmap(cover_arrival_worker, [()])
         ctx.bounds["cover_depth"] = 3 if ctx.thorough else 2
     except ImportError:
         pass
 
 
 def replay(case: Any) -> list[tuple[str, str]]:
-    if case and case[0] == "cover":
+    if case and case[0] in ("cover", "cover-arrival"):
         from .. import cover40 as c40_cover
 
         return c40_cover.replay(case)
